@@ -10,12 +10,18 @@
   * pagination by key, forward: on a listing sorted by key (every reachable store is: `OrbState.Srt`), the page
     requested with the `next` key of the previous page starts exactly at the entry that key names, so the
     pages again tile the matching entries.
-  Not proved: pagination by key in reverse — it is the known finding C13 (the SDK's paginator revisits entries
-  when a key is a proper prefix of another).
+  * pagination by key, in reverse: the property is FALSE of the code and of the model (known finding C13, a defect of
+    the SDK's paginator). Proved instead: `c13_key_page_reverse_actual` — what a reverse page requested by key returns for
+    every listing (the entries that *start with* the named key come first, then the named entry, then what precedes it);
+    `c13_key_page_reverse_partial` — the page is the right one whenever the named key is not a proper prefix of a later
+    key of the listing; `c13_reverse_key_revisits` — the negation of the full statement on a concrete two-entry listing
+    (the walk returns the same entry and the same next key for ever; the same keys replayed on the implementation are the
+    known finding's replay).
 -/
 import Orbiter.Lemmas.Reach
 import Orbiter.Lemmas.Order
 import Orbiter.Lemmas.Sorted
+import Orbiter.Lemmas.PrefixEnd
 namespace Orbiter.C13
 open Orbiter
 
@@ -343,6 +349,125 @@ theorem c13_counts_by_destination_exact (o : OrbState) (hi : o.Inv) (p : Int) (h
 theorem c13_index_size (o : OrbState) :
     (sortBy (fun a b => bytesLt a.1 b.1) (o.counts.map fun e => (encInt32 e.1.dstProto ++ e.1.enc, e))).length = o.counts.length := by
   rw [length_sortBy, List.length_map]
+
+
+/-! ### pagination by key, in reverse: what the paginator really returns, when that is right, and a witness that it is not always -/
+
+/-- In a list sorted by key, the entries below the exclusive end `PrefixEndBytes` computes for the key of `x` are what
+precedes `x`, `x` itself **and every later entry whose key starts with the key of `x`**. -/
+theorem filter_lt_prefixEnd_sorted {α} (l₁ l₂ : List (Bytes × α)) (x : Bytes × α) (f : Bytes × α → Bool)
+    (hf1 : ∀ h, prefixEnd x.1 = some h → ∀ e, f e = bytesLt e.1 h) (hf2 : prefixEnd x.1 = none → ∀ e, f e = true)
+    (hs : (l₁ ++ x :: l₂).Pairwise fun a b => bytesLt a.1 b.1 = true) :
+    (l₁ ++ x :: l₂).filter f = l₁ ++ x :: l₂.filter (fun e => x.1.isPrefixOf e.1) := by
+  rw [List.pairwise_append] at hs
+  obtain ⟨_, h2, h3⟩ := hs
+  rw [List.pairwise_cons] at h2
+  have incl : ∀ e : Bytes × α, bytesLt x.1 e.1 = false → f e = true := by
+    intro e he
+    cases hp : prefixEnd x.1 with
+    | none => exact hf2 hp e
+    | some h => rw [hf1 h hp e]; exact (bytesLt_prefixEnd hp e.1).mpr (Or.inl he)
+  rw [List.filter_append, List.filter_cons]
+  have e1 : l₁.filter f = l₁ := by
+    rw [List.filter_eq_self]
+    intro e he
+    exact incl e (bytesLt_asymm (h3 e he x List.mem_cons_self))
+  have e2 : f x = true := incl x (bytesLt_irrefl _)
+  have e3 : l₂.filter f = l₂.filter (fun e => x.1.isPrefixOf e.1) := by
+    apply List.filter_congr
+    intro e he
+    have hlt := h2.1 e he
+    cases hp : prefixEnd x.1 with
+    | none =>
+      have := prefix_of_prefixEnd_none hp hlt
+      rw [hf2 hp e, List.isPrefixOf_iff_prefix.mpr this]
+    | some h =>
+      have key := bytesLt_prefixEnd hp e.1
+      rw [hf1 h hp e]
+      cases hpre : x.1.isPrefixOf e.1 with
+      | true => exact key.mpr (Or.inr (List.isPrefixOf_iff_prefix.mp hpre))
+      | false =>
+        cases hb : bytesLt e.1 h with
+        | false => rfl
+        | true =>
+          rcases key.mp hb with h' | h'
+          · rw [hlt] at h'; cases h'
+          · rw [List.isPrefixOf_iff_prefix.mpr h'] at hpre; cases hpre
+  rw [e1, e2, e3]
+  rfl
+
+/-- **What a reverse page requested by key returns, for every sorted listing**: first the later entries whose key *starts
+with* the named key (in descending order), only then the named entry and what precedes it. -/
+theorem c13_key_page_reverse_actual {α} (entries : List (Bytes × α)) (pre : Bytes) (L : Nat) (hL : 0 < L)
+    (hsorted : entries.Pairwise fun a b => bytesLt a.1 b.1 = true)
+    (l₁ l₂ : List (Bytes × α)) (x : Bytes × α) (hsplit : matching entries pre false = l₁ ++ x :: l₂)
+    (hlong : pre.length < x.1.length) :
+    let walk := (l₂.filter fun e => x.1.isPrefixOf e.1).reverse ++ x :: l₁.reverse
+    ∃ r, paginate entries pre { key := x.1.drop pre.length, limit := L, reverse := true } = some r ∧
+      r.items = (walk.take L).map (·.2) ∧
+      r.next = (match walk.drop L with | e :: _ => e.1.drop pre.length | [] => []) := by
+  intro walk
+  have hmatch : matching entries pre false = entries.filter fun e => e.1.take pre.length == pre := by
+    unfold matching; rfl
+  have hxin : x ∈ entries.filter fun e => e.1.take pre.length == pre := by
+    rw [← hmatch, hsplit]; simp
+  have hxpre : x.1.take pre.length = pre := by simpa using (List.mem_filter.mp hxin).2
+  have hkey : pre ++ x.1.drop pre.length = x.1 := by
+    have := List.take_append_drop pre.length x.1
+    rw [hxpre] at this
+    exact this
+  have hne : (x.1.drop pre.length).isEmpty = false := by
+    cases hd : x.1.drop pre.length with
+    | nil =>
+      have := congrArg List.length hd
+      simp only [List.length_drop, List.length_nil] at this
+      omega
+    | cons a as => rfl
+  have hsf : (entries.filter fun e => e.1.take pre.length == pre).Pairwise fun a b => bytesLt a.1 b.1 = true :=
+    List.Pairwise.sublist List.filter_sublist hsorted
+  unfold paginate
+  have hL0 : (L == 0) = false := by simpa using Nat.ne_of_gt hL
+  simp only [hL0, Bool.false_eq_true, ↓reduceIte, Nat.lt_irrefl, decide_false, Bool.false_and, hne, Bool.not_false, hkey]
+  rw [← hmatch, hsplit] at hsf ⊢
+  rw [filter_lt_prefixEnd_sorted l₁ l₂ x _ (fun h hp e => by simp only [hp]) (fun hp e => by simp only [hp]) hsf]
+  have hw : (l₁ ++ x :: l₂.filter fun e => x.1.isPrefixOf e.1).reverse = walk := by
+    simp [walk]
+  rw [hw]
+  exact ⟨_, rfl, rfl, rfl⟩
+
+/-- The part of the property that holds (`…_partial`: the full statement — for *every* listing — is false, see
+`c13_reverse_key_revisits`): when the named key is not a proper prefix of a later key of the listing, the reverse page
+requested by key starts exactly at the named entry and walks downwards. -/
+theorem c13_key_page_reverse_partial {α} (entries : List (Bytes × α)) (pre : Bytes) (L : Nat) (hL : 0 < L)
+    (hsorted : entries.Pairwise fun a b => bytesLt a.1 b.1 = true)
+    (l₁ l₂ : List (Bytes × α)) (x : Bytes × α) (hsplit : matching entries pre false = l₁ ++ x :: l₂)
+    (hlong : pre.length < x.1.length)
+    (hnp : ∀ e ∈ l₂, ¬ x.1 <+: e.1) :
+    ∃ r, paginate entries pre { key := x.1.drop pre.length, limit := L, reverse := true } = some r ∧
+      r.items = ((x :: l₁.reverse).take L).map (·.2) ∧
+      r.next = (match (x :: l₁.reverse).drop L with | e :: _ => e.1.drop pre.length | [] => []) := by
+  have h := c13_key_page_reverse_actual entries pre L hL hsorted l₁ l₂ x hsplit hlong
+  have hnil : (l₂.filter fun e => x.1.isPrefixOf e.1) = [] := by
+    rw [List.filter_eq_nil_iff]
+    intro e he hp
+    exact hnp e he (List.isPrefixOf_iff_prefix.mp hp)
+  simpa only [hnil, List.reverse_nil, List.nil_append] using h
+
+/-- The counterparties `"1"` and `"10"` of one protocol, as the terminal string keys the listings are walked by. -/
+def witnessListing : List (Bytes × Nat) := [([49], 1), ([49, 48], 10)]
+
+/-- **The full statement is false** (known finding C13): over the listing `"1" ↦ 1, "10" ↦ 10`, the reverse walk with page
+size one returns entry `10` with next key `"1"`, and the page requested with that key returns entry `10` with next key `"1"`
+again — entry `10` is visited for ever, entry `1` never. -/
+theorem c13_reverse_key_revisits :
+    (witnessListing.Pairwise fun a b => bytesLt a.1 b.1 = true) ∧
+    (paginate witnessListing [] { limit := 1, reverse := true }).map (fun r => (r.items, r.next)) = some ([10], [49]) ∧
+    (paginate witnessListing [] { key := [49], limit := 1, reverse := true }).map (fun r => (r.items, r.next)) = some ([10], [49]) := by
+  refine ⟨by decide, by decide, by decide⟩
+
+/-- Non-vacuity of `c13_key_page_reverse_partial`: the same walk over `"1" ↦ 1, "2" ↦ 2` is the right one. -/
+example : (paginate ([([49], 1), ([50], 2)] : List (Bytes × Nat)) [] { key := [49], limit := 1, reverse := true }).map
+    (fun r => (r.items, r.next)) = some ([1], []) := by decide
 
 /-! ### non-vacuity -/
 example : encInt32 2 = [128, 0, 0, 2] ∧ encInt32 (-1) = [127, 255, 255, 255] := by decide
